@@ -59,7 +59,8 @@ def render(pts, shape=(48, 48), amp=200):
 
 
 def gen_job(rng, kind=None):
-    kind = kind or rng.choice(["link_iter", "link_iter", "link_df_iter", "find_link_iter"])
+    kind = kind or rng.choice(["link_iter", "link_iter", "link_df_iter", "find_link_iter",
+                               "find_link_iter"])
     if kind == "find_link_iter":
         n = rng.randint(1, 4)
         nfr = rng.randint(2, 4)
@@ -78,10 +79,11 @@ def gen_job(rng, kind=None):
                 if all((q[0] - p[0]) ** 2 + (q[1] - p[1]) ** 2 >= 196 for p in pts):
                     pts.append(q)          # a blob appears later: a trajectory is born mid-movie
         return dict(kind=kind, dim=2, frames=frames, t0=0, sr=[20, 20], iso=True, memory=0,
-                    strategy=None)
+                    strategy=None, withhold_seed=(rng.randrange(10 ** 6) if rng.random() < 0.7 else None))
     mv = linkcommon.gen_movie(rng, thorough=False, plant_history=True)
     mv["frames"] = mv["frames"][:rng.randint(1, 6)]
     mv["kind"] = kind
+    mv["scale_pow"] = 0
     mv["entry"] = kind
     mv["strategy"] = rng.choice(["recursive", "nonrecursive", "numba", None])
     return mv
@@ -90,7 +92,7 @@ def gen_job(rng, kind=None):
 def gen_cases(ctx):
     for inp in ctx.corpus():
         yield inp
-    n = ctx.n(260, 3000)
+    n = ctx.n(260, 2000)
     for i in range(n):
         rng = ctx.rng("sched", i)
         nj = rng.randint(2, 4)
@@ -155,8 +157,19 @@ def make_gen(jb):
     if kind == "find_link_iter":
         from trackpy.linking.find_link import find_link_iter
         reader = [Img(render(pts), k) for k, pts in enumerate(jb["frames"])]
+        wseed = jb.get("withhold_seed")
+
+        def before_link(coords, image=None, **kw):
+            # injected detection failures: withhold a seeded subset of the detections in every
+            # frame after the first, so that the FindLinker has to re-locate features
+            if wseed is None or image is None or image.frame_no == 0 or len(coords) == 0:
+                return coords
+            import random as _r
+            rr = _r.Random("%s:%s" % (wseed, image.frame_no))
+            keep = [i for i in range(len(coords)) if rr.random() > 0.5]
+            return coords[keep]
         g = find_link_iter(reader, search_range=sr, separation=9, diameter=9, minmass=100,
-                           memory=jb["memory"])
+                           memory=jb["memory"], before_link=before_link)
 
         def conv():
             for t, f in g:
